@@ -139,7 +139,7 @@ func metaballStage(r *ev.Run) {
 			r.Eval(1)
 			q := j.w.apply(p)
 			f0, f1 := j.b.mb.MetaballField(p), wm.MetaballField(q)
-			if math.Abs(f0-f1) > 1e-9*(1+math.Abs(f0)) {
+			if !(math.Abs(f0-f1) <= 1e-9*(1+math.Abs(f0))) {
 				bad("field", fmt.Sprintf("field at the image %v is %g, original field %g", q, f1, f0), p)
 				return
 			}
@@ -147,7 +147,7 @@ func metaballStage(r *ev.Run) {
 			if in0 {
 				inside++
 			}
-			if in0 != in1 && math.Abs(f0-j.thr) > 1e-9 {
+			if in0 != in1 && !(math.Abs(f0-j.thr) <= 1e-9) {
 				bad("membership", fmt.Sprintf("MetaballSolid of the original contains the point = %v, MetaballSolid of the wrapped metaball contains its image %v = %v (solid bounds %v..%v)", in0, q, in1, s1.Min(), s1.Max()), p)
 				return
 			}
@@ -216,10 +216,10 @@ func metaball2D(r *ev.Run) {
 						q := p.Mul(s)
 						r.Eval(1)
 						f0, f1 := mb.MetaballField(p), wm.MetaballField(q)
-						if math.Abs(f0-f1) > 1e-9*(1+math.Abs(f0)) {
+						if !(math.Abs(f0-f1) <= 1e-9*(1+math.Abs(f0))) {
 							r.Violation("Metaball/field/2d.VecScaleMetaball", fmt.Sprintf("%s at %v: field %g, original %g", name, p, f1, f0), c)
 							ok = false
-						} else if s0.Contains(p) != s1.Contains(q) && math.Abs(f0-thr) > 1e-9 {
+						} else if s0.Contains(p) != s1.Contains(q) && !(math.Abs(f0-thr) <= 1e-9) {
 							r.Violation("Metaball/membership/2d.VecScaleMetaball", fmt.Sprintf("%s (threshold %g) at %v: original contains=%v, wrapped contains the image %v=%v (bounds %v..%v)", name, thr, p, s0.Contains(p), q, s1.Contains(q), s1.Min(), s1.Max()), c)
 							ok = false
 						}
